@@ -14,6 +14,11 @@ const LEN_BIAS: [usize; 14] = [1, 2, 3, 4, 15, 16, 17, 26, 249, 250, 251, 505, 5
 
 pub fn var_len(r: &mut Rng, max: usize) -> usize {
     let max = max.max(1);
+    if let Some(v) = r.dict_int(max as u64) {
+        if v >= 1 {
+            return v as usize;
+        }
+    }
     let l = match r.below(10) {
         0..=3 => *r.pick(&LEN_BIAS),
         4..=7 => r.range(1, 40) as usize,
@@ -366,6 +371,10 @@ pub fn secret(r: &mut Rng) -> Vec<u8> {
         12 => r.range(1000, 1030) as usize,
         13 if r.chance(1, 60) => *r.pick(&[65_533usize, 65_534, 65_535, 65_536, 65_537, 70_000]),
         _ => r.range(0, 200) as usize,
+    };
+    let n = match r.dict_int(4_200) {
+        Some(v) => v as usize,
+        None => n,
     };
     let n = if super::small_sizes() { n.min(300) } else { n };
     r.bytes(n)
